@@ -4,16 +4,17 @@
   Property theorems only.  `SdrParse.parseSdr` is the executable model that mirrors
   `SdrCommon.from_data` and every `_from_data` of pyipmi/sdr.py (with fields.py / utils.py
   below it); `Spec.Sdr.*` are encoders and views written from IPMI v2.0 tables 43-1, -2, -3,
-  -7, -8, -9, -12 and §43.15.  The dispatch table and the BCD map are regenerated from the
-  working tree on every run (`Gen.SdrTables`), so the theorems that mention them are
-  re-checked against what the code says now.
+  -7, -8, -9, -12 and §43.15.  The dispatch table, the BCD map of the 'bcd+' codec and the BCD plus
+  table of the SDR id-string path are regenerated from the working tree on every run
+  (`Gen.SdrTables`), so the theorems that mention them are re-checked against what the code says now.
 
   Reading guide
   * `parse_encode_full` … `parse_encode_unknown`   parse ∘ encode = view, field by field, for
     every well-formed abstract record of each type (all field values, all id strings)
   * `m_reassembled`, `b_reassembled`, `accuracy_reassembled`, `exponents_signed`
     the split fields for ALL byte pairs;  `split_fields_roundtrip` composes them with the encoder
-  * `id_string_roundtrip`     every id string, every encoding, every length
+  * `id_string_roundtrip`     every id string, every encoding, every length; BCD plus with ALL sixteen codes
+    of §43.15 (`bcd_plus_sdr_table`: the generated SDR table is `0123456789 -.:,_`)
   * `dispatch_table`, `dispatch_by_type_byte`   the type byte alone selects the kind
   * `gen_*`                   the bit expressions of pyipmi/sdr.py and fields.py are re-translated from
     the AST of the working tree on every run (`Gen.SdrExpr`, harness/translate/sdrexpr.py):
@@ -23,10 +24,14 @@
     `gen_b_reassembled`, `gen_accuracy_reassembled`, `gen_exponents_signed`, `gen_byte_fields`,
     `gen_manufacturer_id` restate the split-field facts for the generated definitions;
     `gen_layouts`, `gen_body_offsets`, `gen_flag_lists`, `gen_inputs` pin the order / sizes of the pops, the flag
-    names and which byte every expression reads
+    names and which byte every expression reads; `gen_sdrBcd_eq`, `gen_tls_decoders` the BCD plus decoder of the
+    SDR path (table, nibble expressions, first-match decoder selection, FRU path unchanged)
   * `*_counterexample`        the ORIGINAL pinned source (Variant.asShipped, a frozen variant kept as
     documentation; /repo has been repaired since) violates the property: accuracy above 63, rate unit,
-    modifier unit, id-string type code, BCD+ and 6-bit id strings
+    modifier unit, id-string type code, BCD+ and 6-bit id strings;
+    `bcd_sdr_codes_counterexample` (an SDR id string with a nibble Dh / Eh / Fh raises ValueError: the FRU table
+    has 13 entries), `channel_number_counterexample` (FRU device locator and MC confirmation record report the
+    raw byte as channel number) — each for the variant that differs from `Variant.intended` in that flag only
 -/
 import PyIpmi.Lemmas.SdrParse
 import PyIpmi.Gen.SdrExpr
@@ -54,7 +59,7 @@ theorem parse_encode_eventOnly (r : EventOnly) (h : r.wf = true) :
     parseSdr Variant.intended r.encode = .ok ⟨.eventOnly, r.view, []⟩ :=
   parse_eventOnly r h
 
-/-- Table 43-7. -/
+/-- Table 43-7.  Byte 9: the channel number is bits [7:4]; [3:0] are reserved and ignored whatever they hold. -/
 theorem parse_encode_fruLocator (r : FruLocator) (h : r.wf = true) :
     parseSdr Variant.intended r.encode = .ok ⟨.fruLocator, r.view, []⟩ :=
   parse_fruLocator r h
@@ -65,7 +70,8 @@ theorem parse_encode_mcLocator (r : McLocator) (h : r.wf = true) :
     parseSdr Variant.intended r.encode = .ok ⟨.mcLocator, r.view, [("global_initialization", .nat 0)]⟩ :=
   parse_mcLocator r h
 
-/-- Table 43-9: 20-bit manufacturer id, 16-byte GUID read LS byte first. -/
+/-- Table 43-9: byte 8 holds the channel number in [7:4] and the device revision in [3:0] (both part of the
+record key); 20-bit manufacturer id, 16-byte GUID read LS byte first. -/
 theorem parse_encode_mcConfirmation (r : McConfirmation) (h : r.wf = true) :
     parseSdr Variant.intended r.encode = .ok ⟨.mcConfirmation, r.view, []⟩ :=
   parse_mcConfirmation r h
@@ -123,10 +129,22 @@ theorem split_fields_roundtrip (m b : Int) (tol acc accx dir : Nat) (k2 k1 : Int
 
 /-- Every id string (Unicode / BCD plus / 6-bit packed / 8-bit ASCII, any length the
 type/length byte can express, trailing bytes allowed) reads back as type code, byte count and
-text.  BCD plus uses the map regenerated from `utils.BCD_MAP`. -/
+text.  BCD plus: every one of the sixteen codes of §43.15 in either nibble (the model's table is the one
+regenerated from the working tree: `bcd_plus_sdr_table`). -/
 theorem id_string_roundtrip (s : IdString) (h : s.wf = true) (tail : List Nat) :
     idString Variant.intended (s.encode ++ tail) = .ok s.view :=
   idString_encode s h tail
+
+/-- The BCD plus table the SDR path of today's `TypeLengthString` indexes is the table of §43.15 —
+`0123456789 -.:,_`, sixteen entries, code `d` ↦ `bcdChar d` —, and the 'bcd+' codec (FRU fields) keeps the
+thirteen-entry table of the FRU Information Storage Definition. -/
+theorem bcd_plus_sdr_table :
+    Gen.SdrTables.sdrBcdMap = bcdPlusSdr ∧ (∀ d, d < 16 → Gen.SdrTables.sdrBcdMap[d]? = some (bcdChar d)) ∧
+    Gen.SdrTables.bcdMap = bcdPlusFru := by
+  have e : Gen.SdrTables.sdrBcdMap = bcdPlusSdr := by decide +kernel
+  refine ⟨e, fun d hd => ?_, by decide +kernel⟩
+  rw [e]
+  simpa using Sensor.allLt_spec bcdPlusSdr_sweep d hd
 
 /-! ### dispatch -/
 
@@ -249,7 +267,7 @@ theorem gen_parseFruLocator_eq (aa fid lp ch r0 dt dtm eid einst oem : Nat) (res
     parseFruLocator Variant.intended (aa :: fid :: lp :: ch :: r0 :: dt :: dtm :: eid :: einst :: oem :: rest) =
     withIdThen
       [("device_access_address", .nat (Gen.SdrExpr.fru_device_access_address aa)), ("fru_device_id", .nat fid),
-       ("logical_physical", .nat lp), ("channel_number", .nat ch),
+       ("logical_physical", .nat lp), ("channel_number", .nat (Gen.SdrExpr.fru_channel_number ch)),
        ("reserved", .nat r0),
        ("device_type", .nat dt), ("device_type_modifier", .nat dtm),
        ("entity_id", .nat eid), ("entity_instance", .nat einst),
@@ -267,10 +285,11 @@ theorem gen_parseMcLocator_eq (sa ch psn dc r0 r1 r2 eid einst oem : Nat) (rest 
        ("oem", .nat oem)] rest [("global_initialization", .nat Gen.SdrExpr.mc_global_initialization)] := rfl
 
 theorem gen_parseMcConfirmation_eq (sa did ch f1 f2 iv m0 m1 m2 p0 p1 : Nat) (rest : List Nat) :
-    parseMcConfirmation (sa :: did :: ch :: f1 :: f2 :: iv :: m0 :: m1 :: m2 :: p0 :: p1 :: rest) =
+    parseMcConfirmation Variant.intended (sa :: did :: ch :: f1 :: f2 :: iv :: m0 :: m1 :: m2 :: p0 :: p1 :: rest) =
     if rest.length < 16 then .decodingError
     else .ok ([("device_slave_address", .nat (Gen.SdrExpr.conf_device_slave_address sa)), ("device_id", .nat did),
-            ("channel_number", .nat ch),
+            ("channel_number", .nat (Gen.SdrExpr.conf_channel_number ch)),
+            ("device_revision", .nat (Gen.SdrExpr.conf_device_revision ch)),
             ("firmware_revision_1", .nat f1), ("firmware_revision_2", .nat f2),
             ("ipmi_version", .nat iv),
             ("manufacturer_id", .nat (Gen.SdrExpr.conf_manufacturer_id (leOr [m0, m1, m2]))),
@@ -296,7 +315,8 @@ theorem gen_idString_eq (tl : Nat) (rest : List Nat) :
       (let data := ((tl :: rest).drop Gen.SdrExpr.id_field_lo).take (Gen.SdrExpr.id_field_hi tl - Gen.SdrExpr.id_field_lo)
        let raw := (data.drop (Gen.SdrExpr.tls_raw_lo 0)).take (Gen.SdrExpr.tls_raw_hi 0 tl - Gen.SdrExpr.tls_raw_lo 0)
        let str : Outcome (List Nat) :=
-         if tlsDecoder (Gen.SdrExpr.tls_field_type tl) = 1 then bcdDecode raw
+         if tlsDecoder (Gen.SdrExpr.tls_field_type tl) = 3 then sdrBcdDecode raw
+         else if tlsDecoder (Gen.SdrExpr.tls_field_type tl) = 1 then bcdDecode raw
          else if tlsDecoder (Gen.SdrExpr.tls_field_type tl) = 2 then unpack6 false raw
          else .ok raw
        match str with
@@ -306,14 +326,16 @@ theorem gen_idString_eq (tl : Nat) (rest : List Nat) :
        | .decodingError => .decodingError
        | .pyError n => .pyError n
        | _ => .pyError "?") := by
-  have hd : ∀ x, tlsDecoder x = if x = 1 then 1 else if x = 2 then 2 else 0 := by
+  have hd : ∀ x, tlsDecoder x = if x = 1 then 3 else if x = 2 then 2 else 0 := by
     intro x
-    simp only [tlsDecoder, Gen.SdrExpr.tls_decoders, Gen.SdrExpr.tls_decoder_default, List.lookup]
-    split <;> rename_i h
-    · simp at h; simp [h]
-    · split <;> rename_i h2
-      · simp at h h2; simp [h2]
-      · simp at h h2; simp [h, h2]
+    unfold tlsDecoder
+    by_cases a : x = 1
+    · subst a; rfl
+    · by_cases b : x = 2
+      · subst b; rfl
+      · have a' : (x == 1) = false := by simp [a]
+        have b' : (x == 2) = false := by simp [b]
+        simp [Gen.SdrExpr.tls_decoders, Gen.SdrExpr.tls_decoder_default, List.lookup, a, b, a', b']
   have e1 : ∀ n : Nat, 1 + n - 0 = 1 + n := by intro n; omega
   have e2 : ∀ n : Nat, 0 + 1 + n - (0 + 1) = n := by intro n; omega
   simp only [hd, idString, Variant.intended, Gen.SdrExpr.id_field_lo, Gen.SdrExpr.id_field_hi,
@@ -324,10 +346,37 @@ theorem gen_idString_eq (tl : Nat) (rest : List Nat) :
   · simp only [h1, if_true]; rfl
   · by_cases h2 : (tl >>> 6) &&& 0x3 = 2
     · have h21 : ¬ ((2 : Nat) = 1) := by decide
-      simp only [h2, h21, if_true, if_false]; rfl
+      have h23 : ¬ ((2 : Nat) = 3) := by decide
+      simp only [h2, h21, h23, if_true, if_false]; rfl
     · have h01 : ¬ ((0 : Nat) = 1) := by decide
       have h02 : ¬ ((0 : Nat) = 2) := by decide
-      simp only [h1, h2, h01, h02, if_false]
+      have h03 : ¬ ((0 : Nat) = 3) := by decide
+      simp only [h1, h2, h01, h02, h03, if_false]
+
+/-- The decoder selection of `TypeLengthString._from_data` as translated from today's source: on the SDR path
+(`SdrTypeLengthString` passes `sdr=True`, `__init__` stores it before decoding) field type 01b is decoded with the
+class's own BCD plus table (decoder 3, first match); on the FRU path (`sdr=False`) with the 'bcd+' codec as before. -/
+theorem gen_tls_decoders :
+    Gen.SdrExpr.tls_decoders = [(1, 3), (1, 1), (2, 2)] ∧ Gen.SdrExpr.tls_decoders_fru = [(1, 1), (2, 2)] ∧
+    Gen.SdrExpr.tls_decoder_default = 0 ∧ Gen.SdrExpr.tls_sdr_flag ≠ "" := by decide
+
+/-- The BCD plus decoder of the SDR path as translated from today's source: the table the expression indexes is the
+generated SDR table (hence, by `bcd_plus_sdr_table`, the sixteen codes of §43.15), indexed with `b >> 4` and `b & 0xf`. -/
+theorem gen_sdrBcd_eq :
+    Gen.SdrExpr.tls_sdr_bcd_table = Gen.SdrTables.sdrBcdMap ∧
+    (∀ d ds, sdrBcdDecode (d :: ds) =
+      match Gen.SdrTables.sdrBcdMap[Gen.SdrExpr.tls_sdr_bcd_hi d]?,
+            Gen.SdrTables.sdrBcdMap[Gen.SdrExpr.tls_sdr_bcd_lo d]? with
+      | some hi, some lo =>
+        match sdrBcdDecode ds with
+        | .ok rest => .ok (hi :: lo :: rest)
+        | e => e
+      | _, _ => .pyError "IndexError") ∧
+    (∀ b, b < 256 → Gen.SdrExpr.tls_sdr_bcd_hi b = b / 16 ∧ Gen.SdrExpr.tls_sdr_bcd_lo b = b % 16) := by
+  refine ⟨by decide, fun d ds => ?_, fun b _ => ⟨?_, ?_⟩⟩
+  · rw [bcd_plus_sdr_table.1]; rfl
+  · simp only [Gen.SdrExpr.tls_sdr_bcd_hi]; omega
+  · simp only [Gen.SdrExpr.tls_sdr_bcd_lo]; exact and_f b
 
 theorem gen_unpack6_eq :
     (∀ d0, unpack6 false [d0] = .ok [Gen.SdrExpr.sixbit_char_0 d0]) ∧
@@ -373,14 +422,17 @@ def genByteFieldsOk : Bool :=
     Gen.SdrExpr.id_device_id_string_type u == u / 64 && Gen.SdrExpr.id_device_id_string_length u == u % 64 &&
     Gen.SdrExpr.tls_field_type u == u / 64 && Gen.SdrExpr.tls_length u == u % 64 &&
     Gen.SdrExpr.fru_device_access_address u == u / 2 && Gen.SdrExpr.mc_device_slave_address u == u / 2 &&
-    Gen.SdrExpr.conf_device_slave_address u == u / 2 && Gen.SdrExpr.mc_channel_number u == u % 16
+    Gen.SdrExpr.conf_device_slave_address u == u / 2 && Gen.SdrExpr.mc_channel_number u == u % 16 &&
+    Gen.SdrExpr.fru_channel_number u == u / 16 && Gen.SdrExpr.conf_channel_number u == u / 16 &&
+    Gen.SdrExpr.conf_device_revision u == u % 16
 
 theorem gen_byte_fields_sweep : genByteFieldsOk = true := by decide +kernel
 
 /-- Every single-byte sub-field as translated from today's source is the bit range the tables name:
 units byte 21 ([7:6] format, [5:3] rate, [2:1] modifier, [0] percentage), linearisation [6:0],
 accuracy exponent [3:2], owner LUN [1:0], id-string type [7:6] / length [5:0] (both places that
-read them), 7-bit addresses [7:1], channel [3:0] — for all 256 byte values. -/
+read them), 7-bit addresses [7:1], channel [3:0] of the MC device locator, channel [7:4] of the FRU device
+locator and of the MC confirmation record, device revision [3:0] of the latter — for all 256 byte values. -/
 theorem gen_byte_fields (u : Nat) (h : u < 256) :
     Gen.SdrExpr.full_analog_data_format u = u / 64 ∧ Gen.SdrExpr.full_rate_unit u = u / 8 % 8 ∧
     Gen.SdrExpr.full_modifier_unit u = u / 2 % 4 ∧ Gen.SdrExpr.full_percentage u = u % 2 ∧
@@ -389,7 +441,9 @@ theorem gen_byte_fields (u : Nat) (h : u < 256) :
     Gen.SdrExpr.id_device_id_string_type u = u / 64 ∧ Gen.SdrExpr.id_device_id_string_length u = u % 64 ∧
     Gen.SdrExpr.tls_field_type u = u / 64 ∧ Gen.SdrExpr.tls_length u = u % 64 ∧
     Gen.SdrExpr.fru_device_access_address u = u / 2 ∧ Gen.SdrExpr.mc_device_slave_address u = u / 2 ∧
-    Gen.SdrExpr.conf_device_slave_address u = u / 2 ∧ Gen.SdrExpr.mc_channel_number u = u % 16 := by
+    Gen.SdrExpr.conf_device_slave_address u = u / 2 ∧ Gen.SdrExpr.mc_channel_number u = u % 16 ∧
+    Gen.SdrExpr.fru_channel_number u = u / 16 ∧ Gen.SdrExpr.conf_channel_number u = u / 16 ∧
+    Gen.SdrExpr.conf_device_revision u = u % 16 := by
   have := Sensor.allLt_spec gen_byte_fields_sweep u h
   simpa only [Bool.and_eq_true, beq_iff_eq, and_assoc] using this
 
@@ -429,7 +483,7 @@ theorem gen_layouts :
       [("device_slave_address", 1), ("channel_number", 1), ("power_state_notification", 1),
        ("device_capabilities", 1), ("reserved", 3), ("_entity", 2), ("oem", 1), ("_device_id_string", 0)] ∧
     Gen.SdrExpr.conf_layout =
-      [("device_slave_address", 1), ("device_id", 1), ("channel_number", 1), ("firmware_revision_1", 1),
+      [("device_slave_address", 1), ("device_id", 1), ("channel_revision", 1), ("firmware_revision_1", 1),
        ("firmware_revision_2", 1), ("ipmi_version", 1), ("manufacturer_id", 3), ("product_id", 2),
        ("device_guid", 16)] ∧
     Gen.SdrExpr.oem_layout = [("_common_record_key", 3)] ∧
@@ -474,14 +528,19 @@ theorem gen_inputs :
        ("full_k1_1", ["rexp_bexp = pop(1)"]),
        ("full_k1_2", ["rexp_bexp = pop(1)"]),
        ("fru_device_access_address", ["pop(1)"]),
+       ("fru_channel_number", ["pop(1)"]),
        ("mc_device_slave_address", ["pop(1)"]),
        ("mc_channel_number", ["pop(1)"]),
        ("conf_device_slave_address", ["pop(1)"]),
+       ("conf_channel_number", ["channel_revision = pop(1)"]),
+       ("conf_device_revision", ["channel_revision = pop(1)"]),
        ("conf_manufacturer_id", ["pop(3)"]),
        ("tls_field_type", ["data[offset]"]),
        ("tls_length", ["data[offset]"]),
        ("tls_raw_lo", ["offset"]),
        ("tls_raw_hi", ["offset", "data[offset]"]),
+       ("tls_sdr_bcd_hi", ["b in self.raw"]),
+       ("tls_sdr_bcd_lo", ["b in self.raw"]),
        ("sixbit_char_0", ["d[0]"]),
        ("sixbit_char_1", ["d[0]", "d[1]"]),
        ("sixbit_char_2", ["d[1]", "d[2]"]),
@@ -545,6 +604,49 @@ theorem sixbit_id_counterexample :
       = some (.list [65, 66, 67, 68, 69]) := by
   decide +kernel
 
+/-- One deviation at a time: `Variant.intended` with the SDR BCD plus table replaced by the FRU table. -/
+def fruTableVariant : Variant := { Variant.intended with bcdFruTable := true }
+
+/-- … and with the raw byte reported as channel number. -/
+def rawChannelVariant : Variant := { Variant.intended with chanRaw := true }
+
+/-- The BCD plus id string "12:30,5_" (codes 1 2 Dh 3 0 Eh 5 Fh) is well-formed (§43.15 defines all sixteen
+codes); decoded with the 13-entry FRU table it makes the parser raise ValueError — the whole record is lost, on
+every record type with an id string —; with the SDR table it reads back. -/
+theorem bcd_sdr_codes_counterexample :
+    (witness (.bcdPlus [(1, 2), (13, 3), (0, 14), (5, 15)])).wf = true ∧
+    parseSdr fruTableVariant (witness (.bcdPlus [(1, 2), (13, 3), (0, 14), (5, 15)])).encode = .pyError "ValueError" ∧
+    parseSdr fruTableVariant (⟨2, 0x51, 0x20, 1, 0x80, 7, 3, 0x10, 2, 0xc2, 0x61, 0, .bcdPlus [(1, 13)]⟩ : FruLocator).encode
+      = .pyError "ValueError" ∧
+    attr (parseSdr Variant.intended (witness (.bcdPlus [(1, 2), (13, 3), (0, 14), (5, 15)])).encode) "device_id_string"
+      = some (.list [49, 50, 58, 51, 48, 44, 53, 95]) := by
+  decide +kernel
+
+/-- FRU device locator with channel 7 (byte 9 = 70h): the raw byte 112 is reported; MC confirmation record with
+channel 2, device revision 5 (byte 8 = 25h): 37 is reported and there is no device revision.  Intended: 7; 2 and 5. -/
+theorem channel_number_counterexample :
+    (⟨2, 0x51, 0x20, 1, 0x80, 7, 0, 0x10, 2, 0xc2, 0x61, 0, .ascii8 [70]⟩ : FruLocator).wf = true ∧
+    attr (parseSdr rawChannelVariant
+      (⟨2, 0x51, 0x20, 1, 0x80, 7, 0, 0x10, 2, 0xc2, 0x61, 0, .ascii8 [70]⟩ : FruLocator).encode) "channel_number"
+      = some (.nat 112) ∧
+    attr (parseSdr Variant.intended
+      (⟨2, 0x51, 0x20, 1, 0x80, 7, 0, 0x10, 2, 0xc2, 0x61, 0, .ascii8 [70]⟩ : FruLocator).encode) "channel_number"
+      = some (.nat 7) ∧
+    (⟨7, 0x51, 0x10, 3, 2, 5, 2, 1, 0x51, 0x2c14a, 0x8006, List.replicate 16 0xab⟩ : McConfirmation).wf = true ∧
+    attr (parseSdr rawChannelVariant
+      (⟨7, 0x51, 0x10, 3, 2, 5, 2, 1, 0x51, 0x2c14a, 0x8006, List.replicate 16 0xab⟩ : McConfirmation).encode) "channel_number"
+      = some (.nat 37) ∧
+    attr (parseSdr rawChannelVariant
+      (⟨7, 0x51, 0x10, 3, 2, 5, 2, 1, 0x51, 0x2c14a, 0x8006, List.replicate 16 0xab⟩ : McConfirmation).encode) "device_revision"
+      = none ∧
+    attr (parseSdr Variant.intended
+      (⟨7, 0x51, 0x10, 3, 2, 5, 2, 1, 0x51, 0x2c14a, 0x8006, List.replicate 16 0xab⟩ : McConfirmation).encode) "channel_number"
+      = some (.nat 2) ∧
+    attr (parseSdr Variant.intended
+      (⟨7, 0x51, 0x10, 3, 2, 5, 2, 1, 0x51, 0x2c14a, 0x8006, List.replicate 16 0xab⟩ : McConfirmation).encode) "device_revision"
+      = some (.nat 5) := by
+  decide +kernel
+
 /-! ### non-vacuity -/
 
 /-- The hypotheses of `parse_encode_full` hold for the witness, and its instance says what it
@@ -558,7 +660,9 @@ example : attr (parseSdr Variant.intended (witness (.ascii8 [65, 50])).encode) "
 
 example : (⟨1, 0x51, 0xC0, [1, 2, 3, 4]⟩ : Opaque).wf = true ∧ (3 ≤ [1, 2, 3, 4].length) := by decide
 example : (⟨1, 0x51, 0x08, []⟩ : Opaque).wf = true ∧ kindOfType 0x08 = .unknown := by decide
-example : (⟨7, 0x51, 0x10, 3, 0, 2, 1, 0x51, 0x2c14a, 0x8006, List.replicate 16 0xab⟩ : McConfirmation).wf = true := by
+example : (⟨7, 0x51, 0x10, 3, 15, 9, 2, 1, 0x51, 0x2c14a, 0x8006, List.replicate 16 0xab⟩ : McConfirmation).wf = true := by
+  decide
+example : (⟨2, 0x51, 0x20, 1, 0x80, 15, 9, 0x10, 2, 0xc2, 0x61, 0, .bcdPlus [(13, 14), (15, 0)]⟩ : FruLocator).wf = true := by
   decide
 
 end PyIpmi.Props.C16
